@@ -37,7 +37,8 @@ let parse_meth = function
   | "fut" -> MFut | "next" -> MNext | "ready" -> MReady | "start" -> MStart
   | "flush" -> MFlush | "close" -> MClose | s -> raise (Parse ("meth " ^ s))
 let parse_pres = function
-  | "pending" -> RPending | "final" -> RFinal | "item" -> RItem | s -> raise (Parse ("pres " ^ s))
+  | "pending" -> RPending | "final" -> RFinal | "item" -> RItem
+  | "err" -> RFinal (* the inner sink returned Ready(Err): a completed call for the adapter *) | s -> raise (Parse ("pres " ^ s))
 
 let parse_call toks : call =
   match toks with
@@ -297,7 +298,8 @@ let time_checks (h : hist) : string list =
                    if ei > 0 then begin
                      add_point mend (N.add c.rc_begin c.rc_dur);
                      let lo = Stdlib.max 0 (tb.(ei) - ta.(done_of.(bi))) and hi = ta.(done_of.(ei)) - tb.(bi) in
-                     let lo' = Stdlib.max 0 (lo - 20000 - lo / 50) and hi' = hi + 20000 + hi / 50 in
+                     let lo' = Stdlib.max 0 (lo - 3000 - lo / 50) and hi' = hi + 20000 + hi / 50 in
+                     if Sys.getenv_opt "VDEBUG" <> None then Printf.printf "  DUR id=%s dur=%d lo=%d hi=%d bi=%d ei=%d\n" (hex_of_n c.rc_id) (int_of_n c.rc_dur) lo' hi' bi ei;
                      durs := { dc_dur = c.rc_dur; dc_lo = n_of_int lo'; dc_hi = n_of_int hi' } :: !durs
                    end;
                    let w0 = h.wall0 in
